@@ -6,6 +6,7 @@ import GeonumModel.Spec.RealWitness
 import GeonumModel.Lemmas.Exact
 import GeonumModel.Lemmas.FloatTrig
 import GeonumModel.Lemmas.GeonumMag
+import GeonumModel.Lemmas.FloatMetric
 
 set_option linter.unusedSectionVars false
 set_option linter.unusedVariables false
@@ -93,63 +94,16 @@ variable {F : Type} [FloatSpec F]
 theorem dot_value_float {a b : Geonum F} (ha : a.angle.Inv) (hb : b.angle.Inv) (hma : a.MagDom) (hmb : b.MagDom) :
     |val (fmul (fmul a.mag b.mag) (FloatLike.cos (b.angle.geometricSub a.angle).gradeAngle))
         - val a.mag * val b.mag * Real.cos (Angle.Tpi b.angle - Angle.Tpi a.angle)|
-      ≤ val a.mag * val b.mag * (val (e10 : F) + 1 / 10 ^ 14) + 1 / 10 ^ 29 := by
-  obtain ⟨haf, ha0, ha1⟩ := hma
-  obtain ⟨hbf, hb0, hb1⟩ := hmb
-  have hd := geometricSub_inv hb ha
-  obtain ⟨hfg, _, _, _⟩ := gradeAngle_spec hd
-  obtain ⟨hfc, hc1, _⟩ := cos_spec hfg
-  obtain ⟨hcos, _⟩ := cos_sub_float ha hb
-  obtain ⟨hfp, hp0, hp1⟩ := mul_dom haf hbf ha0 hb0 ha1 hb1
-  have hpv : val (fmul a.mag b.mag) = rnd (F := F) (val a.mag * val b.mag) := by
-    have hr : InRange (F := F) (val a.mag * val b.mag) := inRange_of_le (by
-      rw [abs_of_nonneg (mul_nonneg ha0 hb0)]
-      have : val a.mag * val b.mag ≤ 10 ^ 100 * 10 ^ 100 := mul_le_mul ha1 hb1 hb0 (by positivity)
-      norm_num at this ⊢; linarith)
-    exact (fmul_spec haf hbf hr).2
-  set m := val a.mag * val b.mag with hm
-  have hm0 : 0 ≤ m := mul_nonneg ha0 hb0
-  set P := val (fmul a.mag b.mag) with hP
-  set cv := val (FloatLike.cos (b.angle.geometricSub a.angle).gradeAngle) with hcv
-  have hPerr : |P - m| ≤ m / 2 ^ 53 + 1 / 10 ^ 30 := by
-    rw [hpv]; have := rnd_close (F := F) m; rwa [abs_of_nonneg hm0] at this
-  have hPcv : |P * cv| ≤ P := by
-    rw [abs_mul, abs_of_nonneg hp0]
-    calc P * |cv| ≤ P * 1 := mul_le_mul_of_nonneg_left hc1 hp0
-      _ = P := mul_one _
-  obtain ⟨_, hvv⟩ := fmul_spec hfp hfc (inRange_mono (by rw [abs_of_nonneg hp0]; exact hPcv) (inRange_val hfp))
-  have hVerr : |rnd (F := F) (P * cv) - P * cv| ≤ P / 2 ^ 53 + 1 / 10 ^ 30 := by
-    have h := rnd_close (F := F) (P * cv)
-    have : |P * cv| / 2 ^ 53 ≤ P / 2 ^ 53 := div_le_div_of_nonneg_right hPcv (by positivity)
-    linarith
-  rw [hvv]
-  -- assemble
-  have e : rnd (F := F) (P * cv) - m * Real.cos (Angle.Tpi b.angle - Angle.Tpi a.angle)
-      = (rnd (F := F) (P * cv) - P * cv) + (P - m) * cv + m * (cv - Real.cos (Angle.Tpi b.angle - Angle.Tpi a.angle)) := by ring
-  rw [e]
-  have t1 := hVerr
-  have t2 : |(P - m) * cv| ≤ m / 2 ^ 53 + 1 / 10 ^ 30 := by
-    rw [abs_mul]
-    calc |P - m| * |cv| ≤ |P - m| * 1 := mul_le_mul_of_nonneg_left hc1 (abs_nonneg _)
-      _ ≤ m / 2 ^ 53 + 1 / 10 ^ 30 := by rw [mul_one]; exact hPerr
-  have t3 : |m * (cv - Real.cos (Angle.Tpi b.angle - Angle.Tpi a.angle))| ≤ m * (val (e10 : F) + 8 / 10 ^ 15) := by
-    rw [abs_mul, abs_of_nonneg hm0]; exact mul_le_mul_of_nonneg_left hcos hm0
-  have hPle : P ≤ 2 * m + 1 / 10 ^ 30 := by
-    rw [abs_le] at hPerr
-    have : m / 2 ^ 53 ≤ m := div_le_self hm0 (by norm_num)
-    linarith [hPerr.2]
-  have hP53 : P / 2 ^ 53 ≤ 2 * m / 2 ^ 53 + 1 / 10 ^ 30 := by
-    have h1 : P / 2 ^ 53 ≤ (2 * m + 1 / 10 ^ 30) / 2 ^ 53 := div_le_div_of_nonneg_right hPle (by positivity)
-    have h2 : (1:ℝ) / 10 ^ 30 / 2 ^ 53 ≤ 1 / 10 ^ 30 := div_le_self (by positivity) (by norm_num)
-    rw [add_div] at h1; linarith
-  have habs := abs_add_three (rnd (F := F) (P * cv) - P * cv) ((P - m) * cv)
-    (m * (cv - Real.cos (Angle.Tpi b.angle - Angle.Tpi a.angle)))
-  have hnum : (3:ℝ) / 2 ^ 53 + 8 / 10 ^ 15 ≤ 1 / 10 ^ 14 := by norm_num
-  have hnum2 : (4:ℝ) / 10 ^ 30 ≤ 1 / 10 ^ 29 := by norm_num
-  have h53m : m / 2 ^ 53 = m * (1 / 2 ^ 53) := by ring
-  have h53m2 : 2 * m / 2 ^ 53 = m * (2 / 2 ^ 53) := by ring
-  rw [h53m2] at hP53; rw [h53m] at t2
-  nlinarith [habs, t1, t2, t3, hP53, hm0, mul_le_mul_of_nonneg_left hnum hm0]
+      ≤ val a.mag * val b.mag * (val (e10 : F) + 1 / 10 ^ 14) + 1 / 10 ^ 29 :=
+  Geonum.dot_value_float ha hb hma hmb
+
+/-- (B) **the dot value is symmetric in rounded arithmetic**: `a·b` and `b·a` (computed from the two opposite angle differences)
+    agree to within twice the accuracy bound -/
+theorem dot_symm_float {a b : Geonum F} (ha : a.angle.Inv) (hb : b.angle.Inv) (hma : a.MagDom) (hmb : b.MagDom) :
+    |val (fmul (fmul a.mag b.mag) (FloatLike.cos (b.angle.geometricSub a.angle).gradeAngle))
+      - val (fmul (fmul b.mag a.mag) (FloatLike.cos (a.angle.geometricSub b.angle).gradeAngle))|
+      ≤ 2 * (val a.mag * val b.mag * (val (e10 : F) + 1 / 10 ^ 14) + 1 / 10 ^ 29) :=
+  Geonum.dot_symm_float ha hb hma hmb
 
 end B
 
